@@ -703,6 +703,13 @@ func c07(r *core.Run) {
 						return
 					}
 					if w := core.Requires(f, core.Is(st), atom); w != nil {
+						// assign-then-clamp (`o.workers = n; if n < 1 { o.workers = 1 }`): the untested number is
+						// written first, but wherever it was not found to be >= 1 afterwards another (equally
+						// checked) write of the field replaces it before anything can read it
+						holds, _ := core.EdgesOf(f, atom)
+						if deadStore(f, st, "mapReduceOptions.workers", holds) == nil {
+							return
+						}
 						o.Fail(p.InstrPos(st), "workers set to %s without testing it to be >= 1: with 0 workers the dispatcher blocks forever on the pool", core.Describe(leaf))
 					}
 				})
@@ -1429,6 +1436,22 @@ func c07(r *core.Run) {
 				}
 			}
 			return false
+		}
+		// ... or the call of an in-package helper that cannot return without having made such a poll
+		isPollDirect := isPoll
+		isPoll = func(in ssa.Instruction) bool {
+			if isPollDirect(in) {
+				return true
+			}
+			c, ok := in.(*ssa.Call)
+			if !ok {
+				return false
+			}
+			h := c.Call.StaticCallee()
+			if h == nil || h.Blocks == nil || h.Pkg == nil || h.Pkg != in.Parent().Pkg || len(core.Instrs(h, isPollDirect)) == 0 {
+				return false
+			}
+			return core.MustPass(core.Entry(h), isPollDirect, core.IsReturn) == nil
 		}
 		for _, sel := range psels {
 			g := sel.Parent()
